@@ -7,7 +7,7 @@ import zlib
 
 from engine import gen_states, pool_map
 from props.coords_common import segs_of, cigar_for, nid
-from readers import join_lines, gaf_record, line_at, load_pickle, read_text, run_cli, write_text, workdir
+from readers import join_lines, gaf_record, line_at, load_pickle, read_text, run_cli, write_text, workdir, lines_of
 
 
 def gfa_text(segs, links):
@@ -40,7 +40,7 @@ def make_records(segs, walks, rnd, blank_names=False):
             # every third walk's reads carry a non-ASCII character in the name, every third an extra Z field with one:
             # byte offsets and character offsets of the following records then differ
             uni = "\u00e9" if wi % 3 == 1 else ""
-            tail = "\tzd:Z:a\u00f1b" if wi % 3 == 2 else ""
+            tail = "\tzd:Z:a\u00f1b" if wi % 3 == 2 else ("\tzl:Z:x\u2028y\x1cz" if wi % 7 == 3 else "")      # (line-boundary look-alikes are data)
             pre = ["q", "q", "@q", "#q", "7"][wi % 5]          # read names are free text (FASTQ-style '@', '#', leading digit)
             if blank_names and wi % 4 == 1:                     # GraphAligner keeps the FASTQ comment: a blank inside column 1 (index only:
                 pre = "run7 ch=5 " + pre                        # re-emitting commands cut the name at the blank)
@@ -58,7 +58,7 @@ def positions(out_text, ref_lines):
     idx = {}
     for k, l in enumerate(ref_lines):
         idx.setdefault(l, k + 1)
-    return [idx.get(l, 0) for l in out_text.splitlines()]
+    return [idx.get(l, 0) for l in lines_of(out_text)]
 
 
 def index_projection(gvi, gaf, lines, bgzf):
@@ -106,6 +106,13 @@ def run_session(job):
     bgzf = storage == "bgzf"
     try:
         segs = segs_of(st["ref"], [tuple(h) for h in st["hap"]], base=opts.get("hapbase", 1))
+        # contig names are free text too: in three sessions of four the non-reference contig is called "e", "ref_contig" (the
+        # name of the extra key the index carries) or "1"
+        altname = [None, "e", "ref_contig", "1"][zlib.crc32(("ctg" + sid).encode()) % 4]
+        if altname:
+            for g_ in segs.values():
+                if g_["sr"] != 0:
+                    g_["sn"] = altname
         scale = opts.get("scale", 1)
         if scale > 1:       # the same session on a larger scale: coordinates with different numbers of digits
             for g in segs.values():
@@ -121,7 +128,7 @@ def run_session(job):
         # whole-file conversions (also the reference for --format selections)
         cs = os.path.join(d, "conv_s.gaf")
         r = run_cli(["view", U, "-g", gfa, "-f", "stable", "-o", cs])
-        slines = open(cs).read().splitlines() if r["status"] == "ok" else None
+        slines = lines_of(open(cs).read()) if r["status"] == "ok" else None
         files = [("unstable", U, ulines)]
         if slines is not None and len(slines) == len(ulines):
             S = os.path.join(d, "s.gaf" + ext)
@@ -133,7 +140,7 @@ def run_session(job):
             if fmt == "stable":
                 cu = os.path.join(d, "conv_u.gaf")
                 r = run_cli(["view", F, "-g", gfa, "-f", "unstable", "-o", cu])
-                conv = open(cu).read().splitlines() if r["status"] == "ok" else None
+                conv = lines_of(open(cu).read()) if r["status"] == "ok" else None
             c = {"id": f"{sid}.{fmt}", "mode": mode, "truncated": False, "sampled": scale > 1, "segs": segs, "file": [abstract(l) for l in lines], "fmt": fmt,
                  "storage": storage, "gfa_gz": gfa_gz, "session": {k: st[k] for k in ("ref", "hap", "extra", "avoid")}}
             gvi = F + ".gvi"
